@@ -1,9 +1,11 @@
 (* C08 - print then parse gives the same value back.  Theorems only.
-   Proved here: the quoted-string form, for every string of Unicode scalar values, with the
-   escape table regenerated from the implementation on every run.  The block-string form and
-   the whole-document round trip are decided by correspondence/exploration (see DESIGN.md). *)
+   Proved here: both string forms.  Quoted: every string of Unicode scalar values, with the
+   escape table regenerated from the implementation on every run.  Block: every value in the
+   range of the lexer's block-string denotation, both minimize modes, any re-indentation.
+   The whole-document round trip is in Properties/ParserThms.v (parser model) and explored. *)
 From GV Require Import Base.Prelude Gen.Tables Gen.TableChecks Lang.Lexer Lang.LexerProps
-  Lang.PrintString Lang.PrintStringProps.
+  Lang.PrintString Lang.PrintStringProps Lang.BlockString Lang.BlockStringProps
+  Properties.BlockStringThms.
 
 (* For every text of Unicode scalar values, reading print_string's output (from the character
    after the opening quote, at offset pos, with anything following the closing quote) yields
@@ -28,6 +30,38 @@ Theorem C08_escape_table_ok :
   /\ existsb (fun r => (fst r <=? 256) && (1114111 <=? snd r)) print_string_passthrough = true.
 Proof. exact (conj table_entries_ok (conj table_covers_low passthrough_covers_high)). Qed.
 Print Assumptions C08_escape_table_ok.
+
+(* ---- block strings (proofs in Lang/BlockStringProps.v, statements in Properties/BlockStringThms.v) ---- *)
+Theorem C08_block_roundtrip :
+  forall (raw v : list N) (minimize : bool) (pads : list (list N)) (cu : cursor) (rest : list N),
+  block_value raw = Ok v ->
+  Forall (fun c => is_scalar c = true) v ->
+  Forall (Forall (fun c => is_blank_char c = true)) pads ->
+  exists tk cu',
+    read_token cu (indent_all pads (print_block_string v minimize) ++ rest) = Ok (tk, cu', rest) /\
+    tkind tk = K_BLOCK_STRING /\ thasval tk = true /\ tvalue tk = v /\
+    tstart tk = cpos cu /\
+    tend tk = (cpos cu + length (indent_all pads (print_block_string v minimize)))%nat /\
+    cpos cu' = tend tk.
+Proof. exact block_roundtrip. Qed.
+Print Assumptions C08_block_roundtrip.
+
+Theorem C08_block_range_char : forall v : list N,
+  (in_block_range v = true /\ Forall (fun c => is_scalar c = true) v) <->
+  (exists raw, Forall (fun c => is_scalar c = true) raw /\ block_value raw = Ok v).
+Proof. exact block_range_char. Qed.
+Print Assumptions C08_block_range_char.
+
+Theorem C08_printable_in_range : forall v,
+  is_printable_as_block_string v = true -> in_block_range v = true.
+Proof. exact printable_in_range. Qed.
+Print Assumptions C08_printable_in_range.
+
+(* "any string values" in block form means "any value in the range": these two have no block form *)
+Theorem C08_out_of_range_refuted : forall raw,
+  block_value raw <> Ok [10] /\ block_value raw <> Ok [32; 97; 10; 32; 98].
+Proof. exact out_of_range_refuted. Qed.
+Print Assumptions C08_out_of_range_refuted.
 
 (* as a whole token: lexing the printed string gives one STRING token with that value *)
 Example C08_example :
